@@ -1,8 +1,971 @@
-//! Case generators and the `gen` mode driver.
+//! Case generators and the `gen` mode driver (parallel worker processes).
 
-pub fn main(_args: &[String]) {
-  eprintln!("chanh gen: not implemented yet");
-  std::process::exit(2);
+use crate::prog::{arg_list, Case, Op, FLAVOURS};
+use std::io::{Read, Write};
+use std::process::{Command, Stdio};
+
+pub struct Rng(pub u64);
+impl Rng {
+  pub fn next(&mut self) -> u64 {
+    self.0 = self.0.wrapping_add(0x9E37_79B9_7F4A_7C15);
+    let mut z = self.0;
+    z = (z ^ (z >> 30)).wrapping_mul(0xBF58_476D_1CE4_E5B9);
+    z = (z ^ (z >> 27)).wrapping_mul(0x94D0_49BB_1331_11EB);
+    z ^ (z >> 31)
+  }
+  pub fn below(&mut self, n: usize) -> usize {
+    if n == 0 { 0 } else { (self.next() % n as u64) as usize }
+  }
+  pub fn range(&mut self, lo: usize, hi: usize) -> usize {
+    lo + self.below(hi - lo + 1)
+  }
+  pub fn chance(&mut self, pct: usize) -> bool {
+    self.below(100) < pct
+  }
+  pub fn pick<'a, T>(&mut self, v: &'a [T]) -> &'a T {
+    &v[self.below(v.len())]
+  }
+  /// weighted choice: index into `w`
+  pub fn weighted(&mut self, w: &[usize]) -> usize {
+    let total: usize = w.iter().sum();
+    let mut k = self.below(total.max(1));
+    for (i, x) in w.iter().enumerate() {
+      if k < *x {
+        return i;
+      }
+      k -= x;
+    }
+    0
+  }
 }
 
-pub fn demo() {}
+const CAPS: &[usize] = &[1, 1, 2, 2, 2, 3, 3, 4, 5, 7, 8];
+
+#[derive(Clone, Copy)]
+pub struct Fl {
+  pub batch: bool,
+  pub s_clone: bool,
+  pub r_clone: bool,
+  pub has_cap: bool,
+  pub scount: bool,
+  pub rdv: bool,
+  pub oneshot: bool,
+  pub spmc: bool,
+  pub unbounded: bool,
+  pub asyn: bool,
+  /// async handle types whose API takes &mut self (one live future per handle)
+  pub s_mut: bool,
+  pub r_mut: bool,
+  pub lock: bool,
+}
+
+pub fn fl(name: &str) -> Fl {
+  let base = name.trim_end_matches("_async");
+  let asyn = name.ends_with("_async");
+  let rdv = name.starts_with("rdv_");
+  let oneshot = name == "oneshot";
+  let spmc = base == "spmc";
+  let unbounded = base == "mpsc_u" || base == "mpmc_u";
+  Fl {
+    batch: !rdv && !oneshot,
+    s_clone: matches!(base, "mpsc_b" | "mpsc_u" | "mpmc_b" | "mpmc_u" | "rdv_mpsc" | "rdv_mpmc" | "oneshot"),
+    r_clone: matches!(base, "mpmc_b" | "mpmc_u" | "rdv_mpmc" | "spmc"),
+    has_cap: base != "mpsc_u" && !oneshot,
+    scount: unbounded,
+    rdv,
+    oneshot,
+    spmc,
+    unbounded,
+    asyn: asyn || oneshot,
+    s_mut: matches!(name, "spsc_async" | "mpsc_u_async" | "mpmc_u_async" | "spmc_async"),
+    r_mut: matches!(name, "spsc_async" | "mpsc_u_async" | "mpmc_u_async"),
+    lock: name == "mutex" || name == "rwlock",
+  }
+}
+
+#[derive(Clone)]
+struct HS {
+  name: String,
+  is_async: bool,
+  closed: bool,
+  alive: bool,
+  lag: usize, // spmc receivers: items published and not yet read by this receiver
+}
+
+struct SeqState {
+  f: Fl,
+  cap: usize,
+  s: Vec<HS>,
+  r: Vec<HS>,
+  len: usize,
+  next_v: u32,
+  next_s: usize,
+  next_r: usize,
+  sent_once: bool,
+}
+
+impl SeqState {
+  fn new(f: Fl, cap: usize) -> SeqState {
+    let h = |n: &str, a: bool| HS { name: n.into(), is_async: a, closed: false, alive: true, lag: 0 };
+    SeqState {
+      f,
+      cap,
+      s: vec![h("s0", f.asyn && !f.oneshot)],
+      r: vec![h("r0", f.asyn)],
+      len: 0,
+      next_v: 1,
+      next_s: 1,
+      next_r: 1,
+      sent_once: false,
+    }
+  }
+  fn vals(&mut self, k: usize) -> Vec<u32> {
+    (0..k).map(|_| { let v = self.next_v; self.next_v += 1; v }).collect()
+  }
+  fn receivers_gone(&self) -> bool {
+    self.r.iter().all(|h| !h.alive || h.closed)
+  }
+  fn senders_gone(&self) -> bool {
+    self.s.iter().all(|h| !h.alive || h.closed)
+  }
+  /// free slots as the generator estimates them
+  fn room(&self) -> usize {
+    if self.f.unbounded {
+      return 1000;
+    }
+    if self.f.rdv {
+      return 0;
+    }
+    if self.f.oneshot {
+      return if self.sent_once { 0 } else { 1 };
+    }
+    if self.f.spmc {
+      let maxlag = self.r.iter().filter(|h| h.alive && !h.closed).map(|h| h.lag).max().unwrap_or(0);
+      return self.cap.saturating_sub(maxlag);
+    }
+    self.cap.saturating_sub(self.len)
+  }
+  fn avail(&self, ri: usize) -> usize {
+    if self.f.spmc { self.r[ri].lag } else { self.len }
+  }
+  fn push(&mut self, k: usize) {
+    if self.f.spmc {
+      for h in self.r.iter_mut().filter(|h| h.alive && !h.closed) {
+        h.lag += k;
+      }
+    } else {
+      self.len += k;
+    }
+    if k > 0 {
+      self.sent_once = true;
+    }
+  }
+  fn pop(&mut self, ri: usize, k: usize) {
+    if self.f.spmc {
+      self.r[ri].lag -= k.min(self.r[ri].lag);
+    } else {
+      self.len -= k.min(self.len);
+    }
+  }
+}
+
+fn alive_idx(v: &[HS], rng: &mut Rng, prefer_open: bool) -> Option<usize> {
+  let open: Vec<usize> = v.iter().enumerate().filter(|(_, h)| h.alive && !h.closed).map(|(i, _)| i).collect();
+  let alive: Vec<usize> = v.iter().enumerate().filter(|(_, h)| h.alive).map(|(i, _)| i).collect();
+  if alive.is_empty() {
+    return None;
+  }
+  if prefer_open && !open.is_empty() && rng.chance(88) {
+    return Some(*rng.pick(&open));
+  }
+  Some(*rng.pick(&alive))
+}
+
+fn seq_send(st: &mut SeqState, rng: &mut Rng, malformed: bool) -> Option<Op> {
+  let si = alive_idx(&st.s, rng, !malformed)?;
+  let h = st.s[si].clone();
+  let dead = h.closed || st.receivers_gone();
+  let room = st.room();
+  if st.f.oneshot {
+    let v = st.vals(1);
+    st.s[si].alive = false;
+    if !dead && room > 0 {
+      st.push(1);
+    }
+    return Some(Op::new(&["send", &h.name, &v[0].to_string()]));
+  }
+  let forms: &[&str] = if st.f.batch {
+    &["try_send", "send", "try_send_batch", "send_batch", "try_send_batch_mut", "send_batch_mut"]
+  } else {
+    &["try_send", "send"]
+  };
+  let w: &[usize] = if st.f.batch { &[30, 26, 12, 12, 10, 10] } else { &[55, 45] };
+  let mut form = forms[rng.weighted(w)];
+  let k = if form.contains("batch") {
+    if malformed || rng.chance(6) { 0 } else { rng.range(1, 4) }
+  } else {
+    1
+  };
+  // blocking forms only when the generator expects them to return
+  let blocking = !form.starts_with("try_");
+  if blocking && !dead && k > room {
+    form = match form {
+      "send" => "try_send",
+      "send_batch" => "try_send_batch",
+      _ => "try_send_batch_mut",
+    };
+  }
+  // known closed-handle defect sites may accept and then wait for space: keep them non-blocking when full
+  if blocking && h.closed && k > room && !form.starts_with("try_") {
+    form = if form == "send" { "try_send" } else { "try_send_batch" };
+  }
+  let vs = st.vals(k);
+  if !dead {
+    let acc = if st.f.rdv { 0 } else { k.min(room) };
+    // all-or-nothing vs prefix does not matter for the estimate's purpose
+    st.push(acc);
+  }
+  Some(if form.contains("batch") {
+    Op::new(&[form, &h.name, &arg_list(&vs)])
+  } else {
+    Op::new(&[form, &h.name, &vs[0].to_string()])
+  })
+}
+
+fn seq_recv(st: &mut SeqState, rng: &mut Rng, malformed: bool) -> Option<Op> {
+  let ri = alive_idx(&st.r, rng, !malformed)?;
+  let h = st.r[ri].clone();
+  if st.f.oneshot {
+    let form = if st.avail(ri) > 0 || h.closed || st.senders_gone() { *rng.pick(&["recv", "try_recv"]) } else { "try_recv" };
+    if !h.closed {
+      st.pop(ri, 1);
+    }
+    return Some(Op::new(&[form, &h.name]));
+  }
+  let mut forms: Vec<&str> = vec!["try_recv", "recv"];
+  let mut w: Vec<usize> = vec![30, 26];
+  if !h.is_async {
+    forms.push("recv_timeout0");
+    w.push(12);
+  }
+  if st.f.batch {
+    forms.extend(["try_recv_batch", "recv_batch", "try_recv_batch_mut", "recv_batch_mut"]);
+    w.extend([10, 10, 8, 8]);
+  }
+  let mut form = forms[rng.weighted(&w)];
+  let n = if form.contains("batch") { if malformed || rng.chance(6) { 0 } else { rng.range(1, 4) } } else { 1 };
+  let blocking = matches!(form, "recv" | "recv_batch" | "recv_batch_mut");
+  let returns = st.avail(ri) > 0 || h.closed || st.senders_gone() || n == 0;
+  if blocking && !returns {
+    form = match form {
+      "recv" => "try_recv",
+      "recv_batch" => "try_recv_batch",
+      _ => "try_recv_batch_mut",
+    };
+  }
+  if !h.closed {
+    st.pop(ri, n);
+  }
+  Some(if form.contains("batch") { Op::new(&[form, &h.name, &n.to_string()]) } else { Op::new(&[form, &h.name]) })
+}
+
+fn seq_probe(st: &mut SeqState, rng: &mut Rng) -> Option<Op> {
+  let sender = rng.chance(50);
+  let v = if sender { &st.s } else { &st.r };
+  let i = alive_idx(v, rng, false)?;
+  let name = v[i].name.clone();
+  let mut forms: Vec<&str> = vec!["is_closed"];
+  if !st.f.oneshot {
+    forms.extend(["len", "len", "is_empty"]);
+    if st.f.has_cap {
+      forms.extend(["is_full", "capacity"]);
+    }
+    if st.f.scount {
+      forms.push("sender_count");
+    }
+  } else if sender {
+    forms.push("is_sent");
+  }
+  let form: &str = *rng.pick(&forms[..]);
+  Some(Op::new(&[form, &name]))
+}
+
+fn seq_admin(st: &mut SeqState, rng: &mut Rng, late: usize) -> Option<Op> {
+  // clone / close / drop / convert
+  let choice = rng.weighted(&[18, late / 2 + 4, late / 2 + 2, 12]);
+  let sender = rng.chance(50);
+  match choice {
+    0 => {
+      if sender && st.f.s_clone && st.s.iter().filter(|h| h.alive).count() < 3 {
+        let i = alive_idx(&st.s, rng, false)?;
+        let n = format!("s{}", st.next_s);
+        st.next_s += 1;
+        let a = st.s[i].is_async;
+        let from = st.s[i].name.clone();
+        st.s.push(HS { name: n.clone(), is_async: a, closed: false, alive: true, lag: 0 });
+        return Some(Op::new(&["clone", &from, &n]));
+      }
+      if st.f.r_clone && st.r.iter().filter(|h| h.alive).count() < 3 {
+        let i = alive_idx(&st.r, rng, false)?;
+        let n = format!("r{}", st.next_r);
+        st.next_r += 1;
+        let (a, lag, from) = (st.r[i].is_async, st.r[i].lag, st.r[i].name.clone());
+        st.r.push(HS { name: n.clone(), is_async: a, closed: false, alive: true, lag });
+        return Some(Op::new(&["clone", &from, &n]));
+      }
+      None
+    }
+    1 => {
+      let v = if sender { &mut st.s } else { &mut st.r };
+      let i = alive_idx(v, rng, true)?;
+      v[i].closed = true;
+      Some(Op::new(&["close", &v[i].name.clone()]))
+    }
+    2 => {
+      let v = if sender { &mut st.s } else { &mut st.r };
+      let i = alive_idx(v, rng, false)?;
+      v[i].alive = false;
+      Some(Op::new(&["drop", &v[i].name.clone()]))
+    }
+    _ => {
+      if st.f.oneshot {
+        return None;
+      }
+      let v = if sender { &mut st.s } else { &mut st.r };
+      let i = alive_idx(v, rng, false)?;
+      let form = if v[i].is_async { "to_sync" } else { "to_async" };
+      v[i].is_async = !v[i].is_async;
+      Some(Op::new(&[form, &v[i].name.clone()]))
+    }
+  }
+}
+
+fn gen_seq(rng: &mut Rng, flavour: &str, cap: usize, thorough: bool) -> Vec<Vec<Op>> {
+  let f = fl(flavour);
+  if f.lock {
+    let n = rng.range(6, 18);
+    return vec![gen_lock_thread(rng, flavour, 0, n, true)];
+  }
+  let mut st = SeqState::new(f, cap);
+  let n = rng.range(8, if thorough { 40 } else { 30 });
+  let mut ops = Vec::new();
+  for i in 0..n {
+    let late = (i * 100) / n;
+    let malformed = rng.chance(7);
+    let cat = rng.weighted(&[36, 36, 10, 6 + late / 8]);
+    let op = match cat {
+      0 => seq_send(&mut st, rng, malformed),
+      1 => seq_recv(&mut st, rng, malformed),
+      2 => seq_probe(&mut st, rng),
+      _ => seq_admin(&mut st, rng, late),
+    };
+    if let Some(op) = op {
+      ops.push(op);
+    }
+  }
+  vec![ops]
+}
+
+// ---------------------------------------------------------------- concurrent programs
+
+fn sender_ops(rng: &mut Rng, f: Fl, h: &str, is_async: bool, n: usize, next_v: &mut u32, out: &mut Vec<Op>) {
+  let _ = is_async;
+  for _ in 0..n {
+    if f.oneshot {
+      let v = *next_v;
+      *next_v += 1;
+      if rng.chance(15) {
+        out.push(Op::new(&[*rng.pick(&["is_closed", "is_sent", "close"]), h]));
+      }
+      out.push(Op::new(&["send", h, &v.to_string()]));
+      return;
+    }
+    let forms: &[&str] = if f.batch {
+      &["send", "try_send", "send_batch", "try_send_batch", "send_batch_mut", "try_send_batch_mut", "len", "close", "is_closed", "is_full"]
+    } else {
+      &["send", "try_send", "len", "close", "is_closed", "is_full"]
+    };
+    let w: &[usize] = if f.batch { &[38, 18, 12, 8, 6, 5, 5, 3, 2, 3] } else { &[55, 28, 6, 4, 3, 4] };
+    let form = forms[rng.weighted(w)];
+    if form.contains("send") {
+      let k = if form.contains("batch") { rng.range(1, 3) } else { 1 };
+      let vs: Vec<u32> = (0..k).map(|_| { let v = *next_v; *next_v += 1; v }).collect();
+      if form.contains("batch") {
+        out.push(Op::new(&[form, h, &arg_list(&vs)]));
+      } else {
+        out.push(Op::new(&[form, h, &vs[0].to_string()]));
+      }
+    } else if form == "is_full" && !f.has_cap {
+      out.push(Op::new(&["len", h]));
+    } else {
+      out.push(Op::new(&[form, h]));
+    }
+  }
+}
+
+fn receiver_ops(rng: &mut Rng, f: Fl, h: &str, is_async: bool, n: usize, out: &mut Vec<Op>) {
+  for _ in 0..n {
+    if f.oneshot {
+      out.push(Op::new(&[*rng.pick(&["recv", "recv", "try_recv", "is_closed", "close"]), h]));
+      continue;
+    }
+    let mut forms: Vec<&str> = vec!["recv", "try_recv", "len", "close", "is_closed"];
+    let mut w: Vec<usize> = vec![40, 16, 5, 3, 2];
+    if !is_async {
+      forms.push("recv_timeout0");
+      w.push(14);
+    }
+    if f.batch {
+      forms.extend(["recv_batch", "try_recv_batch", "recv_batch_mut", "try_recv_batch_mut"]);
+      w.extend([10, 7, 5, 4]);
+    }
+    let form = forms[rng.weighted(&w)];
+    if form.contains("batch") {
+      out.push(Op::new(&[form, h, &rng.range(1, 3).to_string()]));
+    } else {
+      out.push(Op::new(&[form, h]));
+    }
+  }
+}
+
+fn gen_conc(rng: &mut Rng, flavour: &str, cap: usize, thorough: bool) -> Vec<Vec<Op>> {
+  let f = fl(flavour);
+  let max_ops = if thorough { 6 } else { 4 };
+  if f.lock {
+    let k = rng.range(2, 3);
+    let mut progs = vec![Vec::new()];
+    for t in 1..=k {
+      let n = rng.range(2, max_ops + 2);
+      progs.push(gen_lock_thread(rng, flavour, t, n, false));
+    }
+    return progs;
+  }
+  let (ns, nr) = {
+    let opts: Vec<(usize, usize)> = match (f.s_clone, f.r_clone) {
+      (true, true) => vec![(1, 1), (2, 1), (1, 2), (1, 1)],
+      (true, false) => vec![(1, 1), (2, 1), (2, 1)],
+      (false, true) => vec![(1, 1), (1, 2), (1, 2)],
+      (false, false) => vec![(1, 1)],
+    };
+    *rng.pick(&opts)
+  };
+  let mut next_v = 1u32;
+  let mut setup: Vec<Op> = Vec::new();
+  let base_async = f.asyn && !f.oneshot;
+  let mut snames = vec!["s0".to_string()];
+  let mut rnames = vec!["r0".to_string()];
+  for i in 1..ns {
+    setup.push(Op::new(&["clone", "s0", &format!("s{}", i)]));
+    snames.push(format!("s{}", i));
+  }
+  for i in 1..nr {
+    setup.push(Op::new(&["clone", "r0", &format!("r{}", i)]));
+    rnames.push(format!("r{}", i));
+  }
+  // optional prefill by the setup thread (never blocks)
+  if !f.rdv && !f.oneshot && rng.chance(25) {
+    let k = rng.range(1, cap.min(3).max(1));
+    for _ in 0..k {
+      setup.push(Op::new(&["try_send", "s0", &next_v.to_string()]));
+      next_v += 1;
+    }
+  }
+  let mut progs = vec![setup];
+  for s in &snames {
+    let mut p = Vec::new();
+    let mut is_async = base_async;
+    if !f.oneshot && rng.chance(6) {
+      p.push(Op::new(&[if is_async { "to_sync" } else { "to_async" }, s]));
+      is_async = !is_async;
+    }
+    let n = rng.range(1, max_ops);
+    sender_ops(rng, f, s, is_async, n, &mut next_v, &mut p);
+    if !f.oneshot && rng.chance(85) {
+      p.push(Op::new(&["drop", s]));
+    }
+    progs.push(p);
+  }
+  for r in &rnames {
+    let mut p = Vec::new();
+    let mut is_async = f.asyn;
+    if !f.oneshot && rng.chance(6) {
+      p.push(Op::new(&[if is_async { "to_sync" } else { "to_async" }, r]));
+      is_async = !is_async;
+    }
+    let n = rng.range(1, max_ops);
+    receiver_ops(rng, f, r, is_async, n, &mut p);
+    if rng.chance(85) {
+      p.push(Op::new(&["drop", r]));
+    }
+    progs.push(p);
+  }
+  progs
+}
+
+// ---------------------------------------------------------------- manual-poll programs
+
+fn gen_async(rng: &mut Rng, flavour: &str, cap: usize, thorough: bool) -> Vec<Vec<Op>> {
+  let f = fl(flavour);
+  if f.lock {
+    return gen_lock_async(rng, flavour);
+  }
+  let _ = cap;
+  let mut ops: Vec<Op> = Vec::new();
+  let mut snames = vec!["s0".to_string()];
+  let mut rnames = vec!["r0".to_string()];
+  if f.s_clone && rng.chance(60) {
+    ops.push(Op::new(&["clone", "s0", "s1"]));
+    snames.push("s1".into());
+  }
+  if f.r_clone && rng.chance(70) {
+    ops.push(Op::new(&["clone", "r0", "r1"]));
+    rnames.push("r1".into());
+  }
+  let two_threads = rng.chance(30);
+  let mut next_v = 1u32;
+  let mut next_f = 0usize;
+  // live futures: (name, handle, is_send)
+  let mut live: Vec<(String, String, bool)> = Vec::new();
+  let mut gone: Vec<String> = Vec::new();
+  let n = rng.range(6, if thorough { 20 } else { 14 });
+  let mut manual: Vec<Op> = Vec::new();
+  // in the two-thread variant the manual thread owns the receivers, the other thread the senders
+  for i in 0..n {
+    let late = i * 100 / n;
+    let busy = |h: &str, live: &Vec<(String, String, bool)>| live.iter().any(|(_, hh, _)| hh == h);
+    let cat = rng.weighted(&[26, 30, 10, 8, 20, 3 + late / 10]);
+    match cat {
+      0 => {
+        // create a future
+        let send_side = if two_threads { false } else { rng.chance(45) && !f.oneshot };
+        let hs: Vec<&String> = (if send_side { &snames } else { &rnames }).iter().filter(|h| !gone.contains(h)).collect();
+        if hs.is_empty() {
+          continue;
+        }
+        let h = (*rng.pick(&hs)).clone();
+        let excl = if send_side { f.s_mut } else { f.r_mut };
+        if excl && busy(&h, &live) {
+          continue;
+        }
+        let fname = format!("f{}", next_f);
+        next_f += 1;
+        if send_side {
+          if f.batch && rng.chance(20) {
+            let k = rng.range(1, 3);
+            let vs: Vec<u32> = (0..k).map(|_| { let v = next_v; next_v += 1; v }).collect();
+            manual.push(Op::new(&["fut", &fname, "=", "send_batch_fut", &h, &arg_list(&vs)]));
+          } else {
+            manual.push(Op::new(&["fut", &fname, "=", "send_fut", &h, &next_v.to_string()]));
+            next_v += 1;
+          }
+        } else if f.batch && rng.chance(20) {
+          manual.push(Op::new(&["fut", &fname, "=", "recv_batch_fut", &h, &rng.range(1, 3).to_string()]));
+        } else {
+          manual.push(Op::new(&["fut", &fname, "=", "recv_fut", &h]));
+        }
+        live.push((fname, h, send_side));
+      }
+      1 => {
+        if live.is_empty() {
+          continue;
+        }
+        let k = rng.below(live.len());
+        manual.push(Op::new(&["poll", &live[k].0]));
+        // the generator cannot know whether it completed; polling a finished future yields invalid:done (harmless),
+        // so retire futures after a second poll
+        if rng.chance(35) {
+          let (fname, _, _) = live.remove(k);
+          manual.push(Op::new(&["dropfut", &fname]));
+        }
+      }
+      2 => {
+        if live.is_empty() {
+          continue;
+        }
+        let k = rng.below(live.len());
+        let (fname, _, _) = live.remove(k);
+        manual.push(Op::new(&["dropfut", &fname]));
+      }
+      3 => {
+        if live.is_empty() {
+          continue;
+        }
+        let k = rng.below(live.len());
+        manual.push(Op::new(&["wakes", &live[k].0]));
+      }
+      4 => {
+        // a non-blocking op on some handle
+        let send_side = if two_threads { false } else { rng.chance(55) };
+        let hs: Vec<&String> = (if send_side { &snames } else { &rnames }).iter().filter(|h| !gone.contains(h)).collect();
+        if hs.is_empty() {
+          continue;
+        }
+        let h = (*rng.pick(&hs)).clone();
+        let excl = if send_side { f.s_mut } else { f.r_mut };
+        if excl && busy(&h, &live) {
+          continue;
+        }
+        if send_side {
+          if f.oneshot {
+            if busy(&h, &live) {
+              continue;
+            }
+            manual.push(Op::new(&["send", &h, &next_v.to_string()]));
+            next_v += 1;
+            gone.push(h);
+          } else if f.batch && rng.chance(20) {
+            let k = rng.range(1, 3);
+            let vs: Vec<u32> = (0..k).map(|_| { let v = next_v; next_v += 1; v }).collect();
+            manual.push(Op::new(&["try_send_batch", &h, &arg_list(&vs)]));
+          } else {
+            manual.push(Op::new(&["try_send", &h, &next_v.to_string()]));
+            next_v += 1;
+          }
+        } else if f.batch && rng.chance(20) {
+          manual.push(Op::new(&["try_recv_batch", &h, &rng.range(1, 3).to_string()]));
+        } else {
+          manual.push(Op::new(&[*rng.pick(&["try_recv", "try_recv", "len"]), &h]));
+        }
+      }
+      _ => {
+        let send_side = if two_threads { false } else { rng.chance(50) };
+        let hs: Vec<&String> = (if send_side { &snames } else { &rnames }).iter().filter(|h| !gone.contains(h)).collect();
+        if hs.is_empty() {
+          continue;
+        }
+        let h = (*rng.pick(&hs)).clone();
+        if busy(&h, &live) {
+          continue;
+        }
+        if rng.chance(50) && !f.oneshot {
+          manual.push(Op::new(&["close", &h]));
+        } else {
+          manual.push(Op::new(&["drop", &h]));
+          gone.push(h);
+        }
+      }
+    }
+  }
+  if two_threads {
+    let mut other: Vec<Op> = Vec::new();
+    for s in &snames {
+      let n = rng.range(1, 3);
+      sender_ops(rng, f, s, true, n, &mut next_v, &mut other);
+      if !f.oneshot && rng.chance(70) {
+        other.push(Op::new(&["drop", s]));
+      }
+    }
+    vec![ops, manual, other]
+  } else {
+    ops.extend(manual);
+    vec![ops]
+  }
+}
+
+// ---------------------------------------------------------------- locks
+
+fn gen_lock_thread(rng: &mut Rng, flavour: &str, tid: usize, n: usize, seq: bool) -> Vec<Op> {
+  let rw = flavour == "rwlock";
+  let mut ops = Vec::new();
+  // held guards of this thread: (name, exclusive)
+  let mut held: Vec<(String, bool)> = Vec::new();
+  let mut k = 0usize;
+  for _ in 0..n {
+    let can_block_excl = held.is_empty();
+    let can_block_read = !held.iter().any(|(_, e)| *e);
+    let g = format!("g{}{}", tid, (b'a' + (k % 26) as u8) as char);
+    let c = rng.weighted(&[30, 22, 34, 14]);
+    match c {
+      0 | 3 => {
+        // blocking acquire (sync or async)
+        let asy = c == 3;
+        if rw {
+          let write = rng.chance(45);
+          if write && can_block_excl {
+            ops.push(Op::new(&[if asy { "write_async" } else { "write" }, &g]));
+            held.push((g, true));
+            k += 1;
+          } else if !write && can_block_read && (!seq || can_block_read) {
+            ops.push(Op::new(&[if asy { "read_async" } else { "read" }, &g]));
+            held.push((g, false));
+            k += 1;
+          }
+        } else if can_block_excl {
+          ops.push(Op::new(&[if asy { "lock_async" } else { "lock" }, &g]));
+          held.push((g, true));
+          k += 1;
+        }
+      }
+      1 => {
+        // try form: may fail (then the guard name stays unused); never blocks
+        let form = if rw { *rng.pick(&["try_read", "try_write"]) } else { "try_lock" };
+        ops.push(Op::new(&[form, &g]));
+        k += 1;
+        // the generator does not know whether it succeeded: release it right away (invalid:noguard is harmless)
+        ops.push(Op::new(&["unlock", &g]));
+      }
+      _ => {
+        if !held.is_empty() {
+          let i = rng.below(held.len());
+          let (name, _) = held.remove(i);
+          ops.push(Op::new(&["unlock", &name]));
+        }
+      }
+    }
+  }
+  for (name, _) in held {
+    ops.push(Op::new(&["unlock", &name]));
+  }
+  ops
+}
+
+fn gen_lock_async(rng: &mut Rng, flavour: &str) -> Vec<Vec<Op>> {
+  let rw = flavour == "rwlock";
+  let mut ops: Vec<Op> = Vec::new();
+  let mut live: Vec<String> = Vec::new();
+  let mut guards: Vec<String> = Vec::new();
+  let mut nf = 0;
+  let mut ng = 0;
+  let n = rng.range(6, 14);
+  for _ in 0..n {
+    match rng.weighted(&[22, 30, 10, 8, 14, 16]) {
+      0 => {
+        let f = format!("f{}", nf);
+        nf += 1;
+        let g = format!("g{}", ng);
+        ng += 1;
+        let kind = if rw { *rng.pick(&["read_fut", "write_fut"]) } else { "lock_fut" };
+        ops.push(Op::new(&["fut", &f, "=", kind, &g]));
+        live.push(f);
+        guards.push(g);
+      }
+      1 if !live.is_empty() => {
+        let f = rng.pick(&live).clone();
+        ops.push(Op::new(&["poll", &f]));
+      }
+      2 if !live.is_empty() => {
+        let i = rng.below(live.len());
+        let f = live.remove(i);
+        ops.push(Op::new(&["dropfut", &f]));
+      }
+      3 if !live.is_empty() => {
+        let f = rng.pick(&live).clone();
+        ops.push(Op::new(&["wakes", &f]));
+      }
+      4 => {
+        let g = format!("g{}", ng);
+        ng += 1;
+        let form = if rw { *rng.pick(&["try_read", "try_write"]) } else { "try_lock" };
+        ops.push(Op::new(&[form, &g]));
+        guards.push(g);
+      }
+      _ => {
+        if !guards.is_empty() {
+          let i = rng.below(guards.len());
+          let g = guards.remove(i);
+          ops.push(Op::new(&["unlock", &g]));
+        }
+      }
+    }
+  }
+  vec![ops]
+}
+
+// ---------------------------------------------------------------- driver
+
+struct Opts {
+  seed: u64,
+  cases: usize,
+  tier: String,
+  flavours: Vec<String>,
+  mode: String,
+  jobs: usize,
+  lo: usize,
+  hi: usize,
+}
+
+fn parse_opts(args: &[String]) -> Opts {
+  let mut o = Opts {
+    seed: 1,
+    cases: 100,
+    tier: "quick".into(),
+    flavours: Vec::new(),
+    mode: "conc".into(),
+    jobs: std::thread::available_parallelism().map(|n| n.get()).unwrap_or(4),
+    lo: 0,
+    hi: usize::MAX,
+  };
+  let mut i = 1;
+  while i < args.len() {
+    let val = |i: usize| args.get(i + 1).cloned().unwrap_or_default();
+    match args[i].as_str() {
+      "--seed" => o.seed = val(i).parse().unwrap_or(1),
+      "--cases" => o.cases = val(i).parse().unwrap_or(100),
+      "--tier" => o.tier = val(i),
+      "--flavours" => o.flavours = val(i).split(',').filter(|s| !s.is_empty()).map(|s| s.to_string()).collect(),
+      "--mode" => o.mode = val(i),
+      "--jobs" => o.jobs = val(i).parse().unwrap_or(1),
+      "--lo" => o.lo = val(i).parse().unwrap_or(0),
+      "--hi" => o.hi = val(i).parse().unwrap_or(usize::MAX),
+      x => {
+        eprintln!("chanh gen: unknown option {}", x);
+        std::process::exit(2);
+      }
+    }
+    i += 2;
+  }
+  if o.flavours.is_empty() {
+    o.flavours = FLAVOURS
+      .iter()
+      .filter(|f| match o.mode.as_str() {
+        "async" => fl(f).asyn || fl(f).lock,
+        _ => true,
+      })
+      .map(|s| s.to_string())
+      .collect();
+  }
+  for f in &o.flavours {
+    if !FLAVOURS.contains(&f.as_str()) {
+      eprintln!("chanh gen: unknown flavour {}", f);
+      std::process::exit(2);
+    }
+  }
+  o
+}
+
+pub fn make_case(seed: u64, idx: usize, mode: &str, tier: &str, flavours: &[String]) -> Case {
+  let mode_salt = match mode {
+    "seq" => 11,
+    "conc" => 23,
+    _ => 37,
+  };
+  let mut rng = Rng(seed.wrapping_mul(0x2545_F491_4F6C_DD1D) ^ ((idx as u64) << 20) ^ mode_salt);
+  rng.next();
+  let flavour = flavours[idx % flavours.len()].clone();
+  let f = fl(&flavour);
+  let cap = if f.rdv || f.unbounded || f.oneshot || f.lock { 0 } else { *rng.pick(CAPS) };
+  let thorough = tier == "thorough";
+  let programs = match mode {
+    "seq" => gen_seq(&mut rng, &flavour, cap, thorough),
+    "async" => gen_async(&mut rng, &flavour, cap, thorough),
+    _ => gen_conc(&mut rng, &flavour, cap, thorough),
+  };
+  let multi = programs.len() > 1;
+  let strategy = if !multi { "replay" } else if idx % 2 == 0 { "rand" } else { "pct" };
+  Case {
+    id: format!("{}-{}-{}", mode, seed, idx),
+    flavour,
+    cap,
+    strategy: strategy.into(),
+    seed: rng.next() >> 16,
+    mode: mode.into(),
+    programs,
+    schedule: None,
+    budget: 20_000,
+  }
+}
+
+pub fn main(args: &[String]) {
+  let o = parse_opts(args);
+  let worker = args[0] == "worker";
+  if worker || o.jobs <= 1 || o.cases < 8 {
+    let stdout = std::io::stdout();
+    let mut lock = std::io::BufWriter::new(stdout.lock());
+    let hi = o.hi.min(o.cases);
+    for i in o.lo..hi {
+      let c = make_case(o.seed, i, &o.mode, &o.tier, &o.flavours);
+      let _ = lock.write_all(crate::run_and_render(&c).as_bytes());
+    }
+    let _ = lock.flush();
+    return;
+  }
+  // parent: contiguous slices, one worker process each, output concatenated in case order
+  let jobs = o.jobs.min(o.cases);
+  let exe = std::env::current_exe().expect("current_exe");
+  let chunk = (o.cases + jobs - 1) / jobs;
+  let mut kids = Vec::new();
+  for j in 0..jobs {
+    let (lo, hi) = (j * chunk, ((j + 1) * chunk).min(o.cases));
+    if lo >= hi {
+      break;
+    }
+    let child = Command::new(&exe)
+      .arg("worker")
+      .args(["--seed", &o.seed.to_string(), "--cases", &o.cases.to_string(), "--tier", &o.tier, "--mode", &o.mode])
+      .args(["--flavours", &o.flavours.join(","), "--lo", &lo.to_string(), "--hi", &hi.to_string()])
+      .stdout(Stdio::piped())
+      .stderr(Stdio::inherit())
+      .spawn()
+      .expect("spawn worker");
+    kids.push(child);
+  }
+  // drain all pipes concurrently so no worker blocks on a full pipe
+  let readers: Vec<std::thread::JoinHandle<Vec<u8>>> = kids
+    .iter_mut()
+    .map(|k| {
+      let mut out = k.stdout.take().unwrap();
+      std::thread::spawn(move || {
+        let mut buf = Vec::new();
+        let _ = out.read_to_end(&mut buf);
+        buf
+      })
+    })
+    .collect();
+  let stdout = std::io::stdout();
+  let mut lock = stdout.lock();
+  let mut rc = 0;
+  for (r, mut k) in readers.into_iter().zip(kids.into_iter()) {
+    let buf = r.join().unwrap_or_default();
+    let _ = lock.write_all(&buf);
+    match k.wait() {
+      Ok(st) if st.success() => {}
+      Ok(st) => {
+        eprintln!("chanh gen: worker exited with {}", st);
+        rc = 1;
+      }
+      Err(e) => {
+        eprintln!("chanh gen: worker wait failed: {}", e);
+        rc = 1;
+      }
+    }
+  }
+  let _ = lock.flush();
+  std::process::exit(rc);
+}
+
+/// Quick sanity: one basic round trip per flavour under a random schedule.
+pub fn demo() {
+  let stdout = std::io::stdout();
+  let mut lock = stdout.lock();
+  for (i, f) in FLAVOURS.iter().enumerate() {
+    let ff = fl(f);
+    let programs: Vec<Vec<Op>> = if ff.lock {
+      let (a, b) = if *f == "mutex" { ("lock", "lock") } else { ("write", "read") };
+      vec![
+        vec![],
+        vec![Op::new(&[a, "g1a"]), Op::new(&["unlock", "g1a"])],
+        vec![Op::new(&[b, "g2a"]), Op::new(&["unlock", "g2a"])],
+      ]
+    } else if ff.oneshot {
+      vec![vec![], vec![Op::new(&["send", "s0", "1"])], vec![Op::new(&["recv", "r0"]), Op::new(&["drop", "r0"])]]
+    } else {
+      vec![
+        vec![],
+        vec![Op::new(&["send", "s0", "1"]), Op::new(&["send", "s0", "2"]), Op::new(&["drop", "s0"])],
+        vec![Op::new(&["recv", "r0"]), Op::new(&["recv", "r0"]), Op::new(&["recv", "r0"]), Op::new(&["drop", "r0"])],
+      ]
+    };
+    let c = Case {
+      id: format!("demo-{}", f),
+      flavour: f.to_string(),
+      cap: if ff.rdv || ff.unbounded || ff.oneshot || ff.lock { 0 } else { 1 },
+      strategy: "rand".into(),
+      seed: 100 + i as u64,
+      mode: "conc".into(),
+      programs,
+      schedule: None,
+      budget: 20_000,
+    };
+    let _ = lock.write_all(crate::run_and_render(&c).as_bytes());
+  }
+}
